@@ -139,6 +139,32 @@ def run_spec(ctx, rep, spec, model, only=None):
         if model:
             pend.append((case, lv, bid, loc))
             reqs.append({"op": "point", "geo_low": [J(x) for x in spec["geo_low"]], "point": [J(x) for x in pt], "levels": mlv})
+    # one selector hopping between boxes that carry the same number on different levels (and back)
+    if only is None and len(spec["levels"]) >= 2:
+        first = {}
+        for item in pts:
+            first.setdefault((item[0], item[1]), item)
+        hops = [(a, first[(a[0] + 1, a[1])]) for k, a in first.items() if (a[0] + 1, a[1]) in first][:4]
+        for a, b in hops:
+            case = {"spec": spec, "point": b[3], "level": b[0], "box": b[1], "cell": b[2], "fsel": 0, "reused_selector": True}
+            rep.case({"s": spec, "hop": [a[3], b[3]]}, nontrivial=True); rep.count("one-selector-hopping-between-levels-same-box-number")
+            try:
+                with alarm(60), quiet(), pools.controlled():
+                    sel = pck[0]
+                    got = [float(np.atleast_1d(np.asarray(sel(*x[3]), dtype=float))[0]) for x in (a, b, a)]
+            except Exception as e:
+                rep.fail(f"query at an interior cell centre raised {type(e).__name__}: {e}", case); continue
+            want = []
+            for x in (a, b, a):
+                lo_ = spec["levels"][x[0]][x[1]][0]
+                want.append(float(truth[(x[0], x[1])][tuple(x[2][d] - lo_[d] for d in range(3)) + (0,)]))
+            fs = spec["data"].get("field_scale")
+            tol = 1e-6 * 64.0 * (fs[0] if fs else 1.0)
+            if any(abs(g_ - w_) > tol for g_, w_ in zip(got, want)):
+                rep.fail(f"one selector queried at level {a[0]}, level {b[0]} and level {a[0]} again (box number {a[1]} each time) returned {got}, the stored values are {want}", case,
+                         obs={"got": got, "want": want})
+            else:
+                rep.agree()
     # points outside the domain are refused
     if only is None:
         G = [spec["geo_low"][d] + spec["grid0"][d] * spec["dx0"][d] for d in range(3)]
